@@ -766,6 +766,7 @@ func (ch *Channel) getMinConnectionState() connectionState {
 
 // connectionCloseStateChange is called when a connection's close state changes.
 func (ch *Channel) connectionCloseStateChange(c *Connection) {
+	verifPoint("chan.closeStateChange.enter", c.connID)
 	ch.removeClosedConn(c)
 	if peer, ok := ch.RootPeers().Get(c.remotePeerInfo.HostPort); ok {
 		peer.connectionCloseStateChange(c)
@@ -788,6 +789,7 @@ func (ch *Channel) connectionCloseStateChange(c *Connection) {
 	ch.mutable.RLock()
 	minState := ch.getMinConnectionState()
 	ch.mutable.RUnlock()
+	verifPoint("chan.closeStateChange.afterMinState", c.connID)
 
 	var updateTo ChannelState
 	if minState >= connectionClosed {
